@@ -195,6 +195,12 @@ fn model_enc_ctor(source: &Source, content: &[u8], punct: &str) -> Result<Result
     if h.num_rows() > h.num_cols() || h.num_rows() == 0 {
         return Err("more rows than columns, or no rows (encoder precondition)");
     }
+    // the verdict on the last columns is the model's own (rank over GF(2)), not the library's
+    // (seeded change C19-r10-2: the library's staircase test lets a singular tail through)
+    let (r, n) = (h.num_rows(), h.num_cols());
+    if BitMat::from_sparse(&h).sub_cols(n - r, n).rank() < r {
+        return Ok(Err("last columns singular".to_string()));
+    }
     match Encoder::from_h(&h) {
         Ok(_) => {
             let usable = pattern_usable(&pattern, h.num_cols());
@@ -247,6 +253,7 @@ fn gen_content(g: &mut Stream, for_encoder: bool) -> (Vec<u8>, String) {
     let tail = match g.below(8) {
         0 if for_encoder => Tail::Singular,
         1 | 2 => Tail::Staircase,
+        3 if for_encoder => Tail::NearStaircase,
         _ => Tail::Invertible,
     };
     let mut m = random_code(g, k, r, tail, 2);
